@@ -75,6 +75,47 @@ func c12r4(c *Ctx) {
 			}
 		}
 	}
+	// whatever the rendering is computed from: the element list only grows (the appenders), is replaced by the documented
+	// setters (Clear, SetLast on an empty builder) — a method that sets the function, or anything else, must not drop arguments
+	// that were added before it
+	for _, fn := range c.P.Funcs {
+		if !c.P.InPkgs(fn, "txDataBuilder") || fn.Signature.Recv() == nil || !sameBase(fn.Signature.Recv().Type(), recvT) || len(fn.Blocks) == 0 {
+			continue
+		}
+		if fn.Name() == "Clear" || fn.Name() == "SetLast" {
+			continue
+		}
+		for _, b := range fn.Blocks {
+			for _, in := range b.Instrs {
+				st, ok := in.(*ssa.Store)
+				if !ok {
+					continue
+				}
+				fa, ok := st.Addr.(*ssa.FieldAddr)
+				if !ok || fa.X != ssa.Value(fn.Params[0]) || fieldName(fa.X.Type(), fa.Field) != "elements" {
+					continue
+				}
+				grows := false
+				if call, ok := st.Val.(*ssa.Call); ok {
+					if bi, ok := call.Call.Value.(*ssa.Builtin); ok && bi.Name() == "append" {
+						if ld, ok := call.Call.Args[0].(*ssa.UnOp); ok && ld.Op == token.MUL {
+							if f2, ok := ld.X.(*ssa.FieldAddr); ok && f2.X == ssa.Value(fn.Params[0]) && f2.Field == fa.Field {
+								grows = true
+							}
+						}
+					}
+				}
+				construct := fn.Name() + ": store into .elements keeps the arguments added so far"
+				if grows {
+					c.OK(rule, FuncName(fn), construct, c.P.InstrPos(st), "append onto the list itself")
+				} else {
+					c.FailX(Oblig{Rule: rule, Func: FuncName(fn), Construct: construct, Pos: c.P.InstrPos(st), Kind: "violation",
+						Detail:   fn.Name() + " replaces the element list instead of extending it: arguments added before this call are dropped from the built string, so parsing it does not give back what was added",
+						Expected: "only Clear (and SetLast on an empty builder) may replace the list; every other method appends"})
+				}
+			}
+		}
+	}
 	if len(memo) == 0 {
 		for _, fn := range renderers {
 			c.OK(rule, FuncName(fn), fn.Name()+": computed in the call", c.P.Pos(fn.Pos()), "no rendering kept on the builder is returned")
@@ -231,4 +272,17 @@ func init() {
 // followed by one separator and one hex-encoded argument per argument, nothing trimmed afterwards (shared with C10-R1).
 func c12r5(c *Ctx) {
 	c.shareRule(c10r1, "C10-R1", "C12-R5", "every data string emitted by the built-in functions' own encoder has the shape Head(\"@\" hex)* that the parser inverts", nil)
+}
+
+func init() {
+	properties["C12"].Rules = append(properties["C12"].Rules, c12r6)
+}
+
+// c12r6: "deploy data … round-trips": the code-metadata part of deploy data is written by ToBytes and read back by
+// CodeMetadataFromBytes — the two flag tables agree (shared with C20-R1: a flag written into one byte and read from another
+// does not survive build → parse → build).
+func c12r6(c *Ctx) {
+	c.shareRule(c20r1, "C20-R1", "C12-R6", "the code-metadata flags of deploy data are written and read at the same (byte, mask) positions", func(o Oblig) bool {
+		return strings.Contains(o.Construct, "CodeMetadata") || o.Kind == "anchor"
+	})
 }
